@@ -22,3 +22,30 @@ def rel_ancestor_reexport() -> pg.Pkg:
     pkg.modules += [m, other]
     pkg.inits[("pk",)] = [pg.Reexport("name", "pk.corepart._hiddenmod", "shownfunction", None, "rel"), pg.Reexport("name", "pk.corepart._hiddenmod", "ShownClass", None, "rel")]
     return pkg
+
+
+def nested_enum() -> pg.Pkg:
+    pkg = pg.Pkg()
+    c = pg.Cls("HolderOfEnum", nested=[pg.En("InnerShade", ["UMBERX", "SIENNAX"])], methods=[pg.Fn("plainmethod", role="inst")])
+    pkg.modules.append(pg.Mod(("pk",), "withnested", decls=[c]))
+    return pkg
+
+
+def module_level_overload() -> pg.Pkg:
+    pkg = pg.Pkg()
+    fns = [
+        pg.Fn("overloadedfn", [pg.Param("a", "int")], "int", decorators=["overload"]),
+        pg.Fn("overloadedfn", [pg.Param("a", "str")], "str", decorators=["overload"]),
+        pg.Fn("overloadedfn", [pg.Param("a", "int | str")], "int | str", body="return a"),
+        pg.Fn("plainfn"),
+    ]
+    pkg.modules.append(pg.Mod(("pk",), "withoverload", imports=["from typing import overload"], decls=fns))
+    return pkg
+
+
+def only_init_package() -> pg.Pkg:
+    pkg = pg.Pkg()
+    pkg.modules.append(pg.Mod(("pk",), "plainmod", decls=[pg.Fn("plainfn")]))
+    pkg.inits[("pk", "onlyinit")] = []
+    pkg.extra_files["pk/onlyinit/__init__.py"] = '"""Package with nothing but an __init__."""\nVALUE = 1\n'
+    return pkg
